@@ -6,6 +6,7 @@ forbidden lists, SETTINGS_LEN, the order of the checks in Settings::insert, the 
 comparison, the grease formula, the order and the sources of the inserts in TryFrom<Config>, the rows of
 From<&frame::Settings> for config::Settings, the defaults, the WriteBuf header capacity expression and the
 error codes chosen at the three relevant sites."""
+import os
 import re
 from rustsrc import Source, AnchorLost, parse_int, match_close
 
@@ -75,6 +76,78 @@ def builder_setters(path, build_call):
     return out
 
 
+BODY_SNAPSHOT = os.path.join(os.path.dirname(os.path.abspath(__file__)), 'snapshots', 'GenSettings.bodies.json')
+
+
+def mask(t, entries=False):
+    """comment-free, whitespace-free text with only the fact sites masked: error codes, string literals, and the two
+    admissible iteration ranges of Settings::get"""
+    t = squash(t)
+    t = re.sub(r'"(?:[^"\\]|\\.)*"', '""', t)
+    t = re.sub(r'Code::\w+', 'Code::_', t)
+    if entries:
+        t = t.replace('inself.entries[..self.len].iter()', 'inENTRIES').replace('inself.entries.iter()', 'inENTRIES')
+    return t
+
+
+def impl_blocks(src, rx):
+    out = []
+    for m in re.finditer(rx, src.text):
+        i = src.text.index('{', m.end() - 1)
+        j = match_close(src.text, i)
+        out.append(squash(src.text[m.start():j + 1]))
+    return out
+
+
+def control_flow_bodies(repo):
+    """the functions whose control flow the model mirrors by hand; any change to them must be looked at"""
+    R = repo + '/h3/src/'
+    b = {}
+    for key, path, fn, nth in [
+        ('client::Builder::build', 'client/builder.rs', 'build', 0),
+        ('server::Builder::build', 'server/builder.rs', 'build', 0),
+        ('ConnectionInner::send_control_stream_headers', 'connection.rs', 'send_control_stream_headers', 0),
+        ('ConnectionState::settings', 'shared_state.rs', 'settings', 0),
+        ('ConnectionState::set_settings', 'shared_state.rs', 'set_settings', 0),
+        ('InternalConnectionError::got_frame_error', 'error/internal_error.rs', 'got_frame_error', 0),
+        ('ConnectionInner::close_if_needed', 'error/connection_error_creators.rs', 'close_if_needed', 0),
+        ('ConnectionInner::handle_connection_error', 'error/connection_error_creators.rs', 'handle_connection_error', 0),
+        ('WriteBuf::encode_value', 'stream.rs', 'encode_value', 0),
+        ('FrameHeader::encode_header', 'proto/frame.rs', 'encode_header', 0),
+    ]:
+        body, _ = Source(R + path).fn_body(fn, nth=nth)
+        b[key] = mask(body)
+    co = Source(R + 'connection.rs')
+    body, _ = co.fn_body('new', after=co.text.index('pub async fn new'))
+    b['ConnectionInner::new'] = mask(body)
+    fr = Source(R + 'proto/frame.rs')
+    blk, _, _ = fr.item_block(r'(?m)^impl\s+Settings\s*\{')
+    sub = Source.__new__(Source)
+    sub.path, sub.raw, sub.text = fr.path, blk, blk
+    for fn in ('get', 'encode'):
+        body, _ = sub.fn_body(fn)
+        b['Settings::' + fn] = mask(body, entries=(fn == 'get'))
+    b['FrameHeader for Settings'] = ''.join(impl_blocks(fr, r'impl\s+FrameHeader\s+for\s+Settings\s*\{'))
+    st = Source(R + 'stream.rs')
+    b['Buf for WriteBuf'] = ''.join(impl_blocks(st, r'impl<B>\s+Buf\s+for\s+WriteBuf<B>\s+where\s+B:\s*Buf,\s*\{'))
+    b['From<UniStreamHeader> for WriteBuf'] = ''.join(impl_blocks(st, r'impl<B>\s+From<UniStreamHeader>\s+for\s+WriteBuf<B>\s+where\s+B:\s*Buf,\s*\{'))
+    b['Encode for UniStreamHeader'] = ''.join(impl_blocks(st, r'impl\s+Encode\s+for\s+UniStreamHeader\s*\{'))
+    # every implementer of ConnectionState only names its SharedState (settings()/set_settings() are never overridden)
+    for path in ('shared_state.rs', 'connection.rs', 'client/connection.rs', 'client/stream.rs', 'server/connection.rs',
+                 'server/stream.rs', 'server/request.rs'):
+        b['ConnectionState impls in ' + path] = '|'.join(impl_blocks(Source(R + path), r'impl(?:<[^>]*>)?\s+ConnectionState\s+for\s+[^{]*\{'))
+    return b
+
+
+def check_bodies(repo):
+    import json
+    got = control_flow_bodies(repo)
+    want = json.load(open(BODY_SNAPSHOT))
+    for k in sorted(set(got) | set(want)):
+        if got.get(k) != want.get(k):
+            raise AnchorLost('the body of %s is not the one the model was written against' % k)
+
+
 def macro_table(src, name):
     m = re.search(r'(?m)^' + name + r'!\s*\{', src.text)
     if not m:
@@ -96,6 +169,7 @@ def const_expr(src, name):
 
 def extract(repo):
     f, spans = {}, {}
+    check_bodies(repo)
     fr = Source(repo + '/h3/src/proto/frame.rs')
     # ---- identifier table
     f['ids'], spans['setting_identifiers'] = macro_table(fr, 'setting_identifiers')
@@ -426,3 +500,11 @@ def render(f):
     L.append('Definition code_setup_error : N := %s.' % f['code_setup_error'])
     L.append('Definition code_second_settings : N := %s.' % f['code_second_settings'])
     return '\n'.join(L) + '\n'
+
+
+if __name__ == '__main__':
+    # python3 translate/gen_settings.py --write-bodies : refresh the control-flow snapshot from /repo (authoring time only)
+    import json
+    import sys
+    if sys.argv[1:] == ['--write-bodies']:
+        json.dump(control_flow_bodies('/repo'), open(BODY_SNAPSHOT, 'w'), indent=1, sort_keys=True)
